@@ -284,6 +284,8 @@ def gen_scenario(rng):
         own = []
         if sold:
             k = rng.choice([1, 1, 2, 3]) if sold >= 3 else 1
+            if sold >= 12 and rng.random() < 0.06:
+                k = rng.randint(9, 11)          # an illiquid day: the sell-to-cover goes out in many small fills
             cuts = sorted(rng.sample(range(1, sold), k - 1)) if k > 1 else []
             qtys = [b_ - a_ for a_, b_ in zip([0] + cuts, cuts + [sold])]
             td = d + datetime.timedelta(days=rng.choice([0, 1, 1, 2, 2, 3, 5]))
